@@ -19,7 +19,9 @@
 (*   [kind |-> "native", f |-> fields, Hash |-> [of, dmg, bit],            *)
 (*    Sign |-> [k, sof, dmg, bit], fbit |-> [field, bit]]                   *)
 (*   f: hashed fields Data Nonce Source Target Type Time ExtraData ChainId *)
-(*      (Source: key id of the address, 3 = that address with a flipped    *)
+(*      (Source: key id of the address - the address is the Ethereum rule: *)
+(*      last 20 bytes of keccak(X32 || Y32) -, 5 = the digest taken over    *)
+(*      the unpadded coordinates instead, 3 = the address with a flipped    *)
 (*      bit; 2 in a content field = base value with one bit flipped;       *)
 (*      3, 4, 5 in Data/Time/ExtraData/Target and 4 in Source = a textual  *)
 (*      variation that means the same to a reader (white space, key order, *)
@@ -53,6 +55,8 @@ ChainOf(h) == h                     \* the chain id symbol in force at a height
 
 HashedOf(f) == [n \in HashedSet |-> f[n]]
 
+HonestV == [mode |-> "honest", d |-> 0, par |-> 0]      \* the V the signer wrote
+
 (* ------------------------------------------------------------- acceptance *)
 AcceptNative(tx, h) ==
   /\ tx.f.ChainId = ChainOf(h)                       \* chain id of the height
@@ -65,6 +69,7 @@ PayChain(pay) == IF pay.prot = "none" THEN "zero" ELSE pay.prot
 WrapChain(tx) == IF tx.f.ChainId = "pay" THEN PayChain(tx.pay) ELSE tx.f.ChainId
 
 EthConsistent(tx) ==
+  /\ tx.pay.v = HonestV                              \* V is the one the signer wrote (any other V is another signature)
   /\ tx.ed.dmg = "none"                              \* ExtraData is exactly the hex of the payload
   /\ tx.f.Type = "eth"
   /\ tx.f.Source = tx.pay.k                          \* recovered sender
@@ -88,7 +93,11 @@ Signed(f, k) == [kind |-> "native", f |-> f, fbit |-> NoBit,
 HonestNative(h) == Signed(BaseFields(1, ChainOf(h)), 1)
 
 (* dlen: number of bytes of call data *)
-BasePay(prot, to) == [nonce |-> 0, to |-> to, value |-> 0, gas |-> 0, price |-> 0, data |-> 0, dlen |-> 5, prot |-> prot, k |-> 1]
+(* v: the V of the signature as written in the payload: the signer's ("honest") or the signer's
+   changed arithmetically - "delta" d: honest V + d; "abs" d: the value d; "chain" d par: the V of
+   the chain whose id is this chain's + d, 2 * id + 35 + par *)
+BasePay(prot, to) == [nonce |-> 0, to |-> to, value |-> 0, gas |-> 0, price |-> 0, data |-> 0, dlen |-> 5, prot |-> prot, k |-> 1,
+                      v |-> HonestV]
 Wrapped(pay) ==
   [kind |-> "eth", pay |-> pay, ed |-> [dmg |-> "none", bit |-> 0, item |-> 0, how |-> ""],
    f |-> [Source |-> pay.k, Target |-> "pay", Nonce |-> "pay", ChainId |-> "pay", Data |-> "pay", Hash |-> "pay", Type |-> "eth",
@@ -150,6 +159,7 @@ DamageSign(tx, d, i) == [tx EXCEPT !.Sign.dmg = d, !.Sign.bit = i]
 
 (* eth: wrapper field changes, payload variants, damaged encodings *)
 SetWrap(tx, n, v) == [tx EXCEPT !.f[n] = v]
+SetV(tx, mode, d, par) == [tx EXCEPT !.pay.v = [mode |-> mode, d |-> d, par |-> par]]
 FlipWrap(tx, n, i) == [tx EXCEPT !.f[n] = (IF n = "Source" THEN 3 ELSE "flip"), !.fbit = [field |-> n, bit |-> i]]
 DamageEd(tx, d, i) == [tx EXCEPT !.ed = [dmg |-> d, bit |-> i, item |-> 0, how |-> ""]]
 (* same decoded content, different bytes: item number `item` of the signed payload (0 = the outer
